@@ -36,17 +36,36 @@ pub struct EObs {
 }
 
 fn obs_file(f: &mut zip::read::ZipFile<'_>, bufs: &[usize]) -> Result<EObs, String> {
+    obs_file_x(f, bufs, false)
+}
+
+/// `persist`: a caller that does not give up at the first read error but calls read() a few more times on
+/// the same entry (a retrying copy loop); what those calls return is not judged, they must not panic
+fn obs_file_x(f: &mut zip::read::ZipFile<'_>, bufs: &[usize], persist: bool) -> Result<EObs, String> {
     let lm = f.last_modified();
     let mut o = EObs { name: f.name().to_string(), size: f.size(), csize: f.compressed_size(), crc: f.crc32(), method: super::common::method_id(f.compression()), dos: (lm.datepart(), lm.timepart()), mode: f.unix_mode(), content: Err(()) };
     match read_with_bufs(f, bufs, 1 << 26) {
         Ok(c) => o.content = Ok(c),
-        Err(e) if e.starts_with("read error") => o.content = Err(()),
+        Err(e) if e.starts_with("read error") => {
+            o.content = Err(());
+            if persist {
+                let mut scratch = [0u8; 64];
+                let want = bufs.iter().copied().find(|b| *b > 0).unwrap_or(64).min(64);
+                for _ in 0..6 {
+                    let _ = f.read(&mut scratch[..want]);
+                }
+            }
+        }
         Err(e) => return Err(e), // post-EOF / zero-length read contract broken
     }
     Ok(o)
 }
 
 pub fn observe_seekable<R: Read + Seek>(r: R, passwords: &[Option<Vec<u8>>], bufs: &[usize]) -> Result<Result<Vec<EObs>, ()>, String> {
+    observe_seekable_x(r, passwords, bufs, false)
+}
+
+pub fn observe_seekable_x<R: Read + Seek>(r: R, passwords: &[Option<Vec<u8>>], bufs: &[usize], persist: bool) -> Result<Result<Vec<EObs>, ()>, String> {
     let mut za = match zip::ZipArchive::new(r) {
         Ok(z) => z,
         Err(_) => return Ok(Err(())),
@@ -63,7 +82,7 @@ pub fn observe_seekable<R: Read + Seek>(r: R, passwords: &[Option<Vec<u8>>], buf
             None => za.by_index(i).map_err(|_| ()),
         };
         match f {
-            Ok(mut f) => v.push(obs_file(&mut f, bufs)?),
+            Ok(mut f) => v.push(obs_file_x(&mut f, bufs, persist)?),
             Err(()) => v.push(EObs { name: format!("<open failed {i}>"), size: 0, csize: 0, crc: 0, method: 0, dos: (0, 0), mode: None, content: Err(()) }),
         }
     }
